@@ -11,6 +11,8 @@ correspondence run (monitor `no_answer`).
 -/
 import TeosVerif.Lemmas.Plugin
 import TeosVerif.Gen.PluginCalls
+import TeosVerif.Lemmas.ClientFlag
+import TeosVerif.Props.C18
 
 namespace Teos.C14
 open Teos.Client Teos.Plugin
@@ -179,5 +181,64 @@ theorem flagging_call_sites_are_the_modelled_ones :
     Gen.PluginCalls.statusNames = [("Reachable", "reachable"), ("TemporaryUnreachable", "temporary unreachable"),
       ("Unreachable", "unreachable"), ("SubscriptionError", "subscription error"), ("Misbehaving", "misbehaving")] := by
   decide
+
+
+/-! ### the flag is final, for whole histories of client operations -/
+
+/-- **misbehaving_is_final**: from any consistent client state in which the proof of tower `t`'s misbehaviour
+is in the file, run ANY sequence of client operations — registrations (of `t` as well, with any receipt),
+receipts, pending / invalid records, releases, status updates, flags for other towers, abandoning other
+towers, restarts (`reload`) — that does not abandon `t`: the proof is still in the file, `t` is still
+known, and its status is still `misbehaving`, in memory and after every reload. (Status updates that would
+set `misbehaving` directly are not client operations: `Op.ok`.) -/
+theorem misbehaving_is_final (ops : List Client.Op) (t : TowerId) : ∀ (c : Client), Client.Inv c →
+    (∀ op ∈ ops, Teos.C18.Op.ok op) → (∀ op ∈ ops, op ≠ .abandon t) → Flagged c t →
+    Flagged (c.run ops) t ∧ ∃ sm, (c.run ops).towers t = some sm ∧ sm.status = .misbehaving := by
+  induction ops with
+  | nil =>
+    intro c h _ _ hf
+    refine ⟨hf, ?_⟩
+    obtain ⟨sm, hsm⟩ := Option.isSome_iff_exists.mp hf.2
+    obtain ⟨_, _, _, _, _, _, _, _, _, _, hst⟩ := h.sync_some t sm hsm
+    exact ⟨sm, hsm, hst.mpr hf.1⟩
+  | cons op rest ih =>
+    intro c h hok hno hf
+    simp only [Client.run, List.foldl_cons]
+    exact ih _ (Teos.C18.inv_step c op h (hok op (by simp))) (fun o ho => hok o (by simp [ho]))
+      (fun o ho => hno o (by simp [ho])) (flagged_step c op t h.wf hf (hno op (by simp)))
+
+/-- flagging puts the proof in the file (the premise of `misbehaving_is_final` is what `flag_misbehaving_tower`
+establishes) -/
+theorem flagging_establishes_the_flag (c : Client) (h : Client.Inv c) (t : TowerId) (sm : Summary)
+    (ht : c.towers t = some sm) (p : Proof) (r : ApptReceipt) (hok : (c.flagMisbehaving t p r).2 = .ok) :
+    Flagged (c.flagMisbehaving t p r).1 t := by
+  have hi := h.flagMisbehaving t p r
+  revert hi hok
+  unfold Client.flagMisbehaving
+  simp only [ht]
+  split
+  · rename_i hmis
+    intro _ _
+    obtain ⟨_, _, _, _, _, _, _, _, _, _, hst⟩ := h.sync_some t sm ht
+    exact ⟨hst.mp hmis, by rw [ht]; rfl⟩
+  · split
+    · intro hok; simp [Client.panic] at hok
+    · rename_i st hst
+      intro _ _
+      unfold Store.storeProof at hst
+      split at hst
+      · simp only [Option.some.injEq] at hst; subst hst
+        refine ⟨?_, ?_⟩
+        · simp [Client.setSummary]
+        · simp [Client.setSummary]
+      · cases hst
+
+/-- non-vacuity: flagged, then registered again with an extending receipt, fed a receipt, reloaded: still flagged -/
+example :
+    let r1 : RegReceipt := { slots := 10, start := 1, expiry := 100, sig := 0 }
+    let r2 : RegReceipt := { slots := 20, start := 1, expiry := 200, sig := 0 }
+    let c := Client.fresh.run [.register 0 7 r1, .misbehaving 0 { loc := 3, recovered := 9 } { start := 0, usig := 0, tsig := 0 },
+      .register 0 7 r2, .receipt 0 4 19 { start := 0, usig := 0, tsig := 0 }, .reload, .status 0 .reachable]
+    (c.towers 0).map (·.status) = some .misbehaving ∧ (c.store.proofs 0).isSome = true := by decide
 
 end Teos.C14
